@@ -10,10 +10,12 @@ def part(name, pkg, test, quick, thorough, qshards=4, tshards=16, **kw):
     return d
 
 CHECKS = {
-    "C20": dict(parts=[part("decode-no-panic", "codec", "TestC20", 200_000, 20_000_000)]),
+    "C20": dict(parts=[part("decode-no-panic", "codec", "TestC20", 200_000, 20_000_000),
+                       dict(name="native-fuzz", pkg="codec", fuzz="FuzzC20", seconds=240)]),
     "C21": dict(parts=[part("roundtrip", "codec", "TestC21", 100_000, 10_000_000),
                        part("short-bijection", "codec", "TestC21Short", 1, 1, qshards=1, tshards=1, random=False)]),
-    "C22": dict(parts=[part("decode-faithful", "codec", "TestC22", 300_000, 30_000_000)]),
+    "C22": dict(parts=[part("decode-faithful", "codec", "TestC22", 300_000, 30_000_000),
+                       dict(name="native-fuzz", pkg="codec", fuzz="FuzzC22", seconds=240)]),
 }
 
 # Manifest metadata (tools/gen_manifest.py turns this into MANIFEST.json).
